@@ -116,7 +116,11 @@ def h01c2(data: bytes, absolute: bool) -> bool:
     except (dns.name.LabelTooLong, dns.name.NameTooLong):
         return not valid_labels(labels)
     hit("valid")
-    w = n.to_wire(origin=ROOT)
+    try:
+        w = n.to_wire(origin=ROOT)
+    except dns.name.NameTooLong:
+        # a relative name may be 255 octets long by itself; with the root appended it cannot be encoded
+        return not absolute and sum(shape) + len(shape) + 1 > 255
     if len(w) > 255 or len(w) != sum(shape) + len(shape) + 1:
         return False
     back, used = dns.name.from_wire(b"\xbb" + w + b"\xaa", 1)
